@@ -1,4 +1,6 @@
 use crate::infra::Ctx;
+pub mod c01;
+pub mod c01real;
 pub mod c08;
 pub mod c09;
 pub mod c18;
@@ -6,6 +8,7 @@ pub mod c18;
 /// returns (level, rule text) of the check that ran
 pub fn run(ctx: &Ctx) -> Option<(&'static str, &'static str)> {
     match ctx.id.as_str() {
+        "C01" => Some(c01::run(ctx)),
         "C08" => Some(c08::run(ctx)),
         "C09" => Some(c09::run(ctx)),
         "C18" => Some(c18::run(ctx)),
